@@ -56,6 +56,8 @@ class Obligation:
 
     def smt2(self, logic=None):
         s = z3.Solver()
+        for h in getattr(self, 'axioms', []):
+            s.add(h)
         for h in self.hyps:
             s.add(h)
         if self.expect == 'unsat':
@@ -175,6 +177,9 @@ class FunctionRun:
         self._number_loops(extract.body_without_docstring(self.fn))
         self.is_method = '.' in contract.qualname
         self.trusted_used = set()
+        self.bound_names = []
+        self.axioms = []
+        self.axiom_keys = set()
         self.callees_used = set()
 
     # ------------------------------------------------------------------ helpers
@@ -194,6 +199,7 @@ class FunctionRun:
         n = self.counter.get(kind, 0)
         self.counter[kind] = n + 1
         ob = Obligation(self.fname, kind, label, st.pc, goal, line, expect, detail)
+        ob.axioms = self.axioms          # shared list: definitional axioms of opaque spec functions (complete at the end)
         ob.name = '%s/%s#%d%s' % (self.fname, kind, n, ('[' + label + ']') if label else '')
         self.obligations.append(ob)
         return ob
@@ -623,6 +629,8 @@ class FunctionRun:
         for x in self.exec_block(s.body, [body]):
             if x.flow in (None, 'continue'):
                 x.flow = None
+                for h in (spec.hints if spec else []):
+                    self.spec_expr(h, x, self.entry)      # seeds ground instances of opaque spec functions
                 x.env[ghost] = Val(TInt, i + 1)
                 for j, e in enumerate(inv):
                     self.oblige(x, 'inv-preserve', self.spec_bool(e, x, self.entry), s, 'L%d.%d' % (k, j), detail=e)
